@@ -41,6 +41,9 @@ def parse_functions(text):
             blocks[bm.group(1)] = stmts
         nparams = len(re.findall(r'_\d+: ', params))
         f = Fn(name, nparams, blocks); f.ptext = params; f.ret = ret
+        f.types = {}
+        for pm in re.finditer(r'_(\d+): ([^,]+(?:<[^>]*>)?[^,]*)', params): f.types[int(pm.group(1))] = pm.group(2).strip()
+        for lm in re.finditer(r'^\s*let (?:mut )?_(\d+): (.*?);', body, re.M): f.types[int(lm.group(1))] = lm.group(2).strip()
         f.debug = {m2.group(1): int(m2.group(2)) for m2 in re.finditer(r'debug (\w+) => _(\d+);', body)}
         f.captures = [(int(m2.group(2)), m2.group(1)) for m2 in re.finditer(r'debug (\w+) => \(?\*?\(?_1\.(\d+): ', body)]
         fns[name] = f
@@ -189,6 +192,8 @@ def eval_operand(fr, s, ctx):
             lit = bytes(c[1:-1], 'utf-8').decode('unicode_escape').encode('latin-1')
             return Str(list(lit))
         return ('const', c)
+    if re.match(r'^(<.*>|[A-Za-z_][\w:]*)(::<.*>)?::\w+(::<.*>)?$', s) and not re.fullmatch(r'_\d+', s):
+        return ('fnitem', s)          # a function item passed as a value (e.g. to map_err)
     return fr.ref(parse_place(s)).get()
 
 def rust_bytes(body):
@@ -221,6 +226,10 @@ def eval_rvalue(fr, rv, ctx):
     if rv.startswith('&mut '): return fr.ref(parse_place(rv[5:]))
     if rv.startswith('&raw '): raise Exception(rv)
     if rv.startswith('&'): return fr.ref(parse_place(rv[1:]))
+    mrep = re.fullmatch(r'\[(.*); (\d+)(?:_usize)?\]', rv)
+    if mrep and len(split_top(mrep.group(1))) == 1:
+        e = eval_operand(fr, mrep.group(1), ctx)
+        return Struct([e] * int(mrep.group(2)))
     if rv.startswith('[') and rv.endswith(']'):
         return Struct([eval_operand(fr, o, ctx) for o in split_top(rv[1:-1])])
     m = re.fullmatch(r'discriminant\((.*)\)', rv)
@@ -297,7 +306,14 @@ def eval_rvalue(fr, rv, ctx):
         if is_expr(v) and is_bv(v):
             w = {'u8': 8, 'i8': 8, 'u16': 16, 'i16': 16, 'u32': 32, 'i32': 32, 'u64': 64, 'i64': 64, 'usize': 64, 'isize': 64}.get(m.group(2))
             if w and w < v.size(): return Extract(w - 1, 0, v)
-            if w and w > v.size(): return ZeroExt(w - v.size(), v)
+            if w and w > v.size():
+                # widening: sign-extend iff the SOURCE type is a signed integer (declared type of the local the operand reads)
+                src = re.sub(r'^(no_retag )?(move|copy) ', '', m.group(1).strip())
+                ml = re.search(r'_(\d+)', src)
+                ty = getattr(CURRENT_FN[-1], 'types', {}).get(int(ml.group(1)), '') if ml else ''
+                mt = re.search(r'\b([iu])(8|16|32|64|size)\b', ty.replace('&', ' '))
+                signed = bool(mt and mt.group(1) == 'i')
+                return SignExt(w - v.size(), v) if signed else ZeroExt(w - v.size(), v)
         return v
     if rv.startswith('(') and rv.endswith(')') and re.match(r'\((move|copy|const) ', rv):
         parts = split_top(rv[1:-1])
@@ -418,11 +434,13 @@ def closure_name(clo):
 
 def iter_next(it, ctx):
     """next() of any iterator object of the interpreter (None = exhausted)"""
+    it = _d(it)
     if isinstance(it, SplitIter): return split_next(it, ctx)
     if isinstance(it, MapIter):
         x = iter_next(it.it, ctx)
         if x is None: return None
-        return run_fn(closure_name(it.clo), [Ref(Cell(it.clo)) if not isinstance(it.clo, Closure) else it.clo, x], ctx)
+        clo = _d(it.clo)
+        return run_fn(closure_name(clo), [Ref(Cell(clo)) if not isinstance(clo, Closure) else clo, x], ctx)
     return it.next()
 
 def is_ws(b): return Or(b == 0x20, And(UGE(b, 9), ULE(b, 13))) if not isinstance(b, int) else (b == 0x20 or 9 <= b <= 13)
@@ -608,10 +626,9 @@ def call(fr, callee, args, ctx):
     if re.search(r'as Iterator>::collect::<std::result::Result<Vec<T>', c):
         out = []
         while True:
-            item = args[0].it.next()
-            if item is None: return Enum('Ok', [VecV(out)])
-            clo_name = CLOSURE_OF[id(args[0].clo)]
-            r = run_fn(clo_name, [Ref(Cell(args[0].clo)), item], ctx)
+            r = iter_next(args[0], ctx)          # the mapped item: a Result
+            if r is None: return Enum('Ok', [VecV(out)])
+            r = _d(r)
             if r.variant == 'Err': return r
             out.append(r.f[0])
     m = re.match(r'<T as NumCast>::from::<([ui])(\d+)>', c)
@@ -632,6 +649,10 @@ def call(fr, callee, args, ctx):
             x = x.get() if isinstance(x, Ref) else x
             if not first: out += list(sep.b)
             out += list(x.b); first = False
+    if re.search(r'as Fn(Mut|Once)?<\(.*\)>>::call(_mut|_once)?$', c):
+        clo, tup = args[0], _d(args[1])
+        target = _d(clo)
+        return run_fn(closure_name(target), [clo] + list(tup.f), ctx)
     # ---- generic Option / Result vocabulary (by definition of the std methods)
     mo = re.match(r'(?:std::option::)?Option::<.*>::(copied|cloned|as_ref|as_deref|take|unwrap|expect|unwrap_or|unwrap_or_default|or|ok_or|is_some_and|map_or|unwrap_or_else|and_then|map|filter|or_else|ok_or_else)(?:::<.*>)?$', c)
     if mo and isinstance(args[0].get() if isinstance(args[0], Ref) else args[0], Enum):
@@ -668,6 +689,15 @@ def call(fr, callee, args, ctx):
             if not some: return Enum('None', [])
             r = callc(args[1], Ref(Cell(o.f[0]))); keep = ctx.branch(r) if not isinstance(r, bool) else r
             return Enum('Some', [o.f[0]]) if keep else Enum('None', [])
+    ms = re.match(r'core::slice::<impl \[.*\]>::(is_empty|len|iter|first|last)$', c)
+    if ms:
+        v = _d(args[0]); xs = v.items if isinstance(v, VecV) else (v.b if isinstance(v, Str) else v.f)
+        k = ms.group(1)
+        if k == 'is_empty': return len(xs) == 0
+        if k == 'len': return len(xs)
+        if k == 'iter': return SliceIter([Ref(Cell(e)) for e in xs])
+        if k == 'first': return opt(Ref(Cell(xs[0])) if xs else None)
+        if k == 'last': return opt(Ref(Cell(xs[-1])) if xs else None)
     if re.match(r'(Vec|SmallVec)::<.*>::(new|with_capacity)$', c): return VecV([])
     if re.match(r'(Vec|SmallVec)::<.*>::is_empty$', c): return len(_d(args[0]).items) == 0
     if re.match(r'(Vec|SmallVec)::<.*>::push$', c): _d(args[0]).items.append(args[1]); return None
